@@ -244,9 +244,11 @@ pub const FIXTURE_DOC_DIVERGE: &str = r#"<?xml version="1.0" encoding="utf-8"?>
  <ELEMENTS>
   <COMPU-METHOD><SHORT-NAME>b</SHORT-NAME>
    <COMPU-INTERNAL-TO-PHYS><COMPU-SCALES>
-    <COMPU-SCALE><SHORT-LABEL>other</SHORT-LABEL><LOWER-LIMIT>5</LOWER-LIMIT></COMPU-SCALE>
+    <COMPU-SCALE><SHORT-LABEL>other</SHORT-LABEL><LOWER-LIMIT>0</LOWER-LIMIT><COMPU-RATIONAL-COEFFS><COMPU-NUMERATOR><V>1</V></COMPU-NUMERATOR></COMPU-RATIONAL-COEFFS></COMPU-SCALE>
    </COMPU-SCALES></COMPU-INTERNAL-TO-PHYS>
   </COMPU-METHOD>
+  <SYSTEM><SHORT-NAME>a1</SHORT-NAME></SYSTEM>
+  <UNIT><SHORT-NAME>zz9</SHORT-NAME></UNIT>
  </ELEMENTS>
 </AR-PACKAGE>
 </AR-PACKAGES></AUTOSAR>"#;
@@ -279,6 +281,10 @@ pub struct World {
     pub live_set: HashSet<usize>,
     /// every identifiable path that ever existed (ghost-path probes)
     pub ghost_paths: HashSet<String>,
+    /// parent id per live element (from the last rescan)
+    pub parent_of: HashMap<usize, usize>,
+    /// the call in progress (description, operand relation, op code): survives a panic of the call
+    pub pending: Option<(String, &'static str, u32)>,
     pub log: Vec<String>,
     pub file_counter: usize,
     /// exclusion of known hangs etc. is decided by the caller
@@ -295,6 +301,8 @@ pub struct OpResult {
     pub model: usize,
     pub desc: String,
     pub is_load: bool,
+    /// relation between the two element operands of copy / move / remove / set_ref (computed on the pre-state)
+    pub rel: &'static str,
 }
 
 pub fn err_variant(e: &AutosarDataError) -> String {
@@ -312,6 +320,8 @@ impl World {
             live: vec![],
             live_set: HashSet::new(),
             ghost_paths: HashSet::new(),
+            parent_of: HashMap::new(),
+            pending: None,
             log: vec![],
             file_counter: 0,
             audit_mode: false,
@@ -359,6 +369,7 @@ impl World {
     pub fn rescan(&mut self) {
         self.live.clear();
         self.live_set.clear();
+        self.parent_of.clear();
         let models: Vec<AutosarModel> = self.models.clone();
         for m in &models {
             let mut pre = vec![];
@@ -375,6 +386,8 @@ impl World {
                 self.live_set.insert(id);
                 let kids: Vec<Element> = e.content().filter_map(|c| c.unwrap_element()).collect();
                 for k in kids.into_iter().rev() {
+                    let kid = self.id_of(&k);
+                    self.parent_of.insert(kid, id);
                     stack.push((k, depth + 1));
                 }
             }
@@ -534,6 +547,44 @@ impl World {
         }
     }
 
+    /// relation of `other` to `this` from own parent links recorded by the last rescan
+    pub fn relation(&self, this: usize, other: usize) -> &'static str {
+        if this == other {
+            return "same";
+        }
+        let live = |i: usize| self.live_set.contains(&i);
+        if !live(this) && !live(other) {
+            return "both-stale";
+        }
+        if !live(other) {
+            return "other-stale";
+        }
+        if !live(this) {
+            return "this-stale";
+        }
+        if self.model_of(this) != self.model_of(other) {
+            return "other-model";
+        }
+        let anc = |mut x: usize, target: usize| -> Option<usize> {
+            let mut d = 0;
+            while let Some(p) = self.parent_of.get(&x) {
+                d += 1;
+                if *p == target {
+                    return Some(d);
+                }
+                x = *p;
+            }
+            None
+        };
+        match (anc(other, this), anc(this, other)) {
+            (Some(1), _) => "other-is-child",
+            (Some(_), _) => "other-is-descendant",
+            (_, Some(1)) => "other-is-parent",
+            (_, Some(_)) => "other-is-ancestor",
+            _ => "unrelated",
+        }
+    }
+
     fn name_of(&self, id: usize) -> String {
         let e = &self.elems[id];
         let live = self.live_set.contains(&id);
@@ -544,10 +595,11 @@ impl World {
     /// audit monitor (self-aliased move / remove); it returns true to skip.
     pub fn apply(&mut self, o: &Op) -> OpResult {
         use op::*;
-        let mut res = OpResult { ok: false, err: None, skipped: false, model: 0, desc: String::new(), is_load: false };
+        let mut res = OpResult { ok: false, err: None, skipped: false, model: 0, desc: String::new(), is_load: false, rel: "" };
         macro_rules! finish {
             ($r:expr, $desc:expr) => {{
                 res.desc = $desc;
+                self.pending = Some((res.desc.clone(), res.rel, o.code));
                 match $r {
                     Ok(_) => res.ok = true,
                     Err(e) => res.err = Some(err_variant(&e)),
@@ -596,6 +648,7 @@ impl World {
                 let parent = self.elems[pid].clone();
                 res.model = self.model_of(pid);
                 let pos = pick(parent.content_item_count() + 2, o.c);
+                res.rel = self.relation(pid, sid);
                 if (o.code == MOVE || o.code == MOVE_AT) && !self.audit_mode && pid == sid {
                     skip!(format!("{}.move_element_here(self) [hangs: C12]", self.name_of(pid)));
                 }
@@ -629,6 +682,7 @@ impl World {
                 }
                 let parent = self.elems[pid].clone();
                 res.model = self.model_of(pid);
+                res.rel = self.relation(pid, cid);
                 finish!(parent.remove_sub_element(child), format!("{}.remove_sub_element({})", self.name_of(pid), self.name_of(cid)))
             }
             REMOVE_KIND => {
@@ -711,6 +765,7 @@ impl World {
                 let Some(tid) = self.pick_elem_where(o.b, o.d.rotate_left(6), |e| e.is_identifiable()) else { skip!("no element".to_string()) };
                 let (e, t) = (self.elems[id].clone(), self.elems[tid].clone());
                 res.model = self.model_of(id);
+                res.rel = self.relation(id, tid);
                 finish!(e.set_reference_target(&t), format!("{}.set_reference_target({})", self.name_of(id), self.name_of(tid)))
             }
             SET_COMMENT => {
